@@ -181,10 +181,11 @@ def generic_sequence_update(
         )
 
 
-def _inside_removed_node(node, removed_nodes) -> bool:
+def _inside_removed_node(node, removed_nodes, include_self=False) -> bool:
     """True if node is located inside one of the nodes which are replaced or
     deleted as a whole (a nested snapshot() whose parent gets replaced)."""
-    node = getattr(node, "parent", None)
+    if not include_self:
+        node = getattr(node, "parent", None)
     while node is not None:
         if node in removed_nodes:
             return True
@@ -210,7 +211,10 @@ def apply_all(all_changes: List[Change], recorder: ChangeRecorder):
             # be reported but not applied
             continue
 
-        if _inside_removed_node(change.node, removed_nodes):
+        # the node of an insertion is the container itself
+        inserts_into = isinstance(change, (DictInsert, ListInsert, CallArg))
+
+        if _inside_removed_node(change.node, removed_nodes, include_self=inserts_into):
             # changes of a nested snapshot() which gets replaced together
             # with its parent would overlap with the change of the parent
             continue
